@@ -1,5 +1,6 @@
 """C18 -- SLURM boundary: faithful scripts, conservative status, bounded retries."""
 
+import json
 import os
 import re
 import shutil
@@ -25,7 +26,9 @@ RULE = (
     "with that id iff exit 0 and 'Submitted batch job <digits>' present, else Status.ERROR and the batch is not "
     "counted active. retry: scripted (exit code, stdout, stderr) sequences against run_command(num_retries=n, "
     "error_strings) -> executions <= n+1, stop at first success or first listed permanent error, last code and "
-    "output returned. non-trivial = script: >= 3 optional fields; status: target present in a non-finished state; "
+    "output returned. Additionally coverage-guided campaigns (atheris/libFuzzer, counters.fuzz_*) of the squeue and "
+    "sbatch text parsers with the same oracles inside the target, from an empty corpus and from a corpus seeded with "
+    "tests/data/squeue_status.txt (quick: 2 x 30 000 executions, thorough: 8 x 600 000). non-trivial = script: >= 3 optional fields; status: target present in a non-finished state; "
     "submit: exit 0 with unparsable text; retry: > 1 execution; distinct by hash of the case"
 )
 ASSUMPTIONS = [
@@ -354,9 +357,59 @@ def run_retry_case(case, res):
     res["sample"] = {"kind": "retry", "num_retries": n, "codes": [s[0] for s in seq[:n + 1]], "errors": errs, "executions": runs}
 
 
+FUZZ_RUNS = {"quick": 30000, "thorough": 600000}
+FUZZ_SHARDS = {"quick": 2, "thorough": 8}
+
+
+def post_phase(tier, shard, nshards, seed, stats):
+    """E5: coverage-guided campaigns (atheris/libFuzzer) of the squeue / sbatch text parsers with the same oracles inside
+    the target; even shards start from an empty corpus, odd shards from a corpus seeded with tests/data/squeue_status.txt."""
+    import subprocess
+    import sys
+
+    if shard >= FUZZ_SHARDS[tier]:
+        return None
+    try:
+        import atheris  # noqa: F401
+    except ImportError:
+        stats.notes["fuzz_skipped_no_atheris"] = stats.notes.get("fuzz_skipped_no_atheris", 0) + 1
+        return None
+    out = os.path.join(D.scratch(), f"fuzz_{shard}.json")
+    kind = "seeded" if shard % 2 else "empty"
+    cmd = [sys.executable, "-B", "-m", "jv.fuzz", str(FUZZ_RUNS[tier]), str(seed % (2 ** 31 - 1) + 1), kind, out]
+    try:
+        subprocess.run(cmd, stdout=subprocess.DEVNULL, stderr=subprocess.DEVNULL, timeout=3600)
+    except subprocess.TimeoutExpired:
+        stats.notes["fuzz_timeouts"] = stats.notes.get("fuzz_timeouts", 0) + 1
+    try:
+        data = json.load(open(out))
+    except (OSError, ValueError):
+        stats.notes["fuzz_no_output"] = stats.notes.get("fuzz_no_output", 0) + 1
+        return None
+    for k, val in (data.get("counts") or {}).items():
+        stats.notes["fuzz_" + k] = stats.notes.get("fuzz_" + k, 0) + val
+    stats.notes["fuzz_campaigns_" + kind] = stats.notes.get("fuzz_campaigns_" + kind, 0) + 1
+    if data.get("case"):
+        return {"case": data["case"], "phase": f"atheris({kind} corpus)"}
+    return None
+
+
+def run_fuzz_case(case, res):
+    from jv import fuzz
+
+    msg = fuzz.check_status(case["text"], case["target"]) if case["kind"] == "fuzz_status" else fuzz.check_submit(case["text"], case["rc"])
+    if msg:
+        res["violations"].append(D.viol("C18:unfinished-batch-treated-as-finished|fuzz" if case["kind"] == "fuzz_status"
+                                        else "C18:submit-response-misread|fuzz", msg))
+    res["sample"] = dict(case)
+
+
 def run_case(case):
     res = D.result()
     res["classes"].append("kind:" + case["kind"])
+    if case["kind"].startswith("fuzz_"):
+        run_fuzz_case(case, res)
+        return res
     {"script": run_script_case, "status": run_status_case, "submit": run_submit_case, "retry": run_retry_case}[case["kind"]](case, res)
     if not res["nontrivial"] and not res["violations"]:
         res["sample"] = None
